@@ -555,3 +555,118 @@ fn thread_main(sh: &Shared, case: &MtCase, tid: u8) {
         }
     }
 }
+
+/// Several threads drain ONE shared file handle in fixed-size chunks. Whatever the schedule, the
+/// cursor of a handle advances atomically with the copy: every byte of the file is handed out
+/// exactly once (the content encodes its own offset, so each chunk tells where it came from).
+#[derive(Clone, Debug, Serialize, Deserialize, PartialEq)]
+pub struct PartCase {
+    pub threads: u8,
+    pub chunk: u32,
+    pub size: u32,
+    pub rounds: u8,
+    pub method: u8,
+}
+
+pub fn run_partition(storm: &Storm, case: &PartCase, dir: &Path, max_handle: &mut usize) -> Value {
+    use wow_mpq::{ArchiveBuilder, ListfileOption};
+    let size = (case.size as usize).max(64) & !7;
+    let mut data = Vec::with_capacity(size);
+    for i in 0..size / 8 {
+        data.extend_from_slice(&((i as u64 * 8) ^ 0x5A5A_0000_0000_0000).to_le_bytes());
+    }
+    let path = dir.join("part.mpq");
+    let method = match case.method % 3 {
+        0 => wow_mpq::compression::flags::ZLIB,
+        1 => 0,
+        _ => wow_mpq::compression::flags::BZIP2,
+    };
+    let b = ArchiveBuilder::new().listfile_option(ListfileOption::Generate).default_compression(method).add_file_data(data.clone(), "big\\shared.bin");
+    if !matches!(engine::guard("builder", || b.build(&path)), Ok(Ok(_))) {
+        return json!({"ok": true, "discard": "start build failed"});
+    }
+    let cp = cstr(&path.to_string_lossy());
+    let mut ah: Handle = std::ptr::null_mut();
+    if !unsafe { (storm.SFileOpenArchive)(cp.as_ptr(), 0, 0, &mut ah) } {
+        return json!({"ok": false, "sig": "mt:partition:open-archive-fails", "msg": "SFileOpenArchive on a builder-made archive failed"});
+    }
+    let mut fail: Option<(String, String)> = None;
+    let mut chunks_total = 0u64;
+    for round in 0..case.rounds.max(1) {
+        let name = cstr("big\\shared.bin");
+        let mut fh: Handle = std::ptr::null_mut();
+        if !unsafe { (storm.SFileOpenFileEx)(ah, name.as_ptr(), 0, &mut fh) } {
+            fail = Some(("mt:partition:open-file-fails".into(), "SFileOpenFileEx failed".into()));
+            break;
+        }
+        *max_handle = (*max_handle).max(fh as usize);
+        let fhv = fh as usize;
+        let chunk = (case.chunk as usize).max(8) & !7;
+        let got: Mutex<Vec<(u64, usize)>> = Mutex::new(vec![]);
+        let bad: Mutex<Option<String>> = Mutex::new(None);
+        std::thread::scope(|sc| {
+            for _ in 0..case.threads.max(2) {
+                sc.spawn(|| {
+                    let buf = GuardBuf::new(chunk, 8);
+                    loop {
+                        let mut rd: u32 = 0;
+                        let ok = unsafe { (storm.SFileReadFile)(fhv as Handle, buf.ptr() as *mut _, chunk as u32, &mut rd, std::ptr::null_mut()) };
+                        let n = rd as usize;
+                        if n == 0 {
+                            break;
+                        }
+                        if n % 8 != 0 || n > chunk {
+                            *bad.lock().unwrap() = Some(format!("a read of {chunk} bytes reported {n} bytes"));
+                            break;
+                        }
+                        let bytes = buf.bytes(n);
+                        let off = u64::from_le_bytes(bytes[..8].try_into().unwrap()) ^ 0x5A5A_0000_0000_0000;
+                        // the chunk must be the contiguous slice starting at the offset it names
+                        let consistent = (off as usize) + n <= size && bytes == &data[off as usize..off as usize + n];
+                        if !consistent {
+                            *bad.lock().unwrap() = Some(format!("a chunk of {n} bytes is not a contiguous slice of the file (first word says offset {off})"));
+                            break;
+                        }
+                        got.lock().unwrap().push((off, n));
+                        if !ok && n < chunk {
+                            break;
+                        }
+                    }
+                });
+            }
+        });
+        unsafe { (storm.SFileCloseFile)(fhv as Handle) };
+        if let Some(m) = bad.lock().unwrap().take() {
+            fail = Some(("mt:shared-handle-read-returns-wrong-bytes".into(), format!("round {round}: {m}")));
+            break;
+        }
+        let mut g = got.into_inner().unwrap();
+        chunks_total += g.len() as u64;
+        g.sort();
+        let mut pos = 0u64;
+        let mut problem = None;
+        for (off, n) in &g {
+            if *off != pos {
+                problem = Some(if *off < pos { format!("bytes at offset {off} were handed out twice") } else { format!("bytes {pos}..{off} were never handed out") });
+                break;
+            }
+            pos += *n as u64;
+        }
+        if problem.is_none() && pos != size as u64 {
+            problem = Some(format!("{pos} bytes handed out for a file of {size}"));
+        }
+        if let Some(m) = problem {
+            fail = Some((
+                "mt:shared-handle-reads-do-not-partition-the-file".into(),
+                format!("round {round}: {} threads reading {chunk}-byte chunks from one file handle: {m}", case.threads.max(2)),
+            ));
+            break;
+        }
+    }
+    unsafe { (storm.SFileCloseArchive)(ah) };
+    let stats = json!({"calls": chunks_total, "ok_calls": chunks_total, "reads_checked": chunks_total, "handles": 2});
+    match fail {
+        None => json!({"ok": true, "stats": stats}),
+        Some((sig, msg)) => json!({"ok": false, "sig": sig, "msg": msg, "stats": stats}),
+    }
+}
